@@ -148,7 +148,7 @@ def run_type(chk, type_mom, dim, ncent):
                     def g_(n_, b=b, t=t, hrow=hrow):
                         return T.zr(T.power(radius(n_), ORD(b, t, 0))) * SH(hrow, n_) * Fv(n_) * Wt(n_)
                 ps = framework.PrefixSum(f"mom_{type_mom.replace('-', '_')}_{dim}_{b}_{k}{oi}", g_)
-                eq = framework.match_sum(chk, f"moments/{tag}/block{b}/centre{k}{sfx}", sites[0], ps, 0, N - 1, hyb, func=FQ, meta={"replay": rep})
+                eq = framework.match_sum(chk, f"moments/{tag}/block{b}/centre{k}{sfx}", sites[0], ps, 0, N - 1, hyb, func=FQ, meta={"replay": rep}, toplevel=True)
                 chk.add(f"moments/{tag}/block{b}/centre{k}/post/entry-is-the-quadrature-sum{sfx}", hyb + [eq], T.zr(val) == ps.range_sum(0, N - 1), func=FQ,
                         meta={"replay": rep})
         total_rows = sum([ROWS(k) for k in range(nblocks)]) if type_mom != "radial" else z3.IntVal(nblocks)
